@@ -17,6 +17,7 @@ type c9CorpusTrack struct {
 	step       int64 // ticks
 	gop        int   // video: frames per GOP after the first
 	burst      int   // audio: units written together, late (1 = regular)
+	reorder    bool  // video (h264 / h265): frame-reordering pattern of e2e_bf.go; `step` = ticks per frame slot
 	aus        int   // AAC: access units per WriteMPEG4Audio call (0/1 = one); the step is then per AU (1024 ticks)
 }
 
@@ -42,6 +43,34 @@ func c9BuildCase(variant string, segMinNs, partMinNs int64, segCount int, tracks
 	}
 	preEnd := baseSec + float64(preMs)/1000
 	end := preEnd + float64(spanMs)/1000
+	// frame reordering: the video track follows a plan (H264: first GOP stretched + two catch-up GOPs unpaced;
+	// H265: unscaled GOPs, a hole after the first one)
+	var plan []c9BfFrame
+	if hasVideo && tracks[lead].reorder {
+		t := tracks[lead]
+		var slots, gaps []int64
+		pre := 3
+		if t.codec == "h265" {
+			pre = 1
+			gaps = []int64{30000}
+			for g := 0; g < 2+spanMs*90/int(c9BfSlots(t.codec)*3000); g++ {
+				slots = append(slots, 3000)
+			}
+		} else {
+			slots = append(slots, 9000)
+			for g := 0; g < 4+spanMs*90/int(c9BfSlots(t.codec)*t.step); g++ {
+				slots = append(slots, t.step)
+			}
+		}
+		fr, ok := c9BfPlan(t.codec, sts[lead].next, slots, gaps)
+		if !ok {
+			panic("corpus: reordering plan rejected")
+		}
+		plan = fr
+		sts[lead].next = fr[0].dts
+		preEnd = float64(fr[pre*bfPatternLen(t.codec)].dts) / 90000
+		end = preEnd + float64(spanMs)/1000
+	}
 	var ws []string
 	pay := 0
 	skip := -1
@@ -73,7 +102,22 @@ func c9BuildCase(variant string, segMinNs, partMinNs int64, segCount int, tracks
 			}
 			ntp := int64(1600000000000) + c9FloorDiv(pts*1000, int64(t.rate)) - int64(baseSec*1000)
 			pay++
-			if isVideoCodec(t.codec) {
+			if isVideoCodec(t.codec) && plan != nil {
+				f := plan[sts[best].count]
+				ra := f.k == 0
+				par := 0
+				if ra {
+					par = 1
+				}
+				ntp = int64(1600000000000) + c9FloorDiv(f.dts*1000, int64(t.rate)) - int64(baseSec*1000)
+				size := mxH264Sizes(variant, bfBuildAUFor(t.codec, par, f.k, pay))
+				ws = append(ws, fmt.Sprintf("w t=%d pts=%d dts=%d ntp=%d ra=%s pic=1 par=%d pays=%d sizes=%d fill=0 bf=%d", best, f.pts, f.dts, ntp, b01(ra), par, pay, size, f.k))
+				if sts[best].count+1 < len(plan) {
+					sts[best].next = plan[sts[best].count+1].dts
+				} else {
+					sts[best].next = int64(1) << 50
+				}
+			} else if isVideoCodec(t.codec) {
 				ra := false
 				switch {
 				case sts[best].count == 0:
@@ -135,7 +179,11 @@ func c9BuildCase(variant string, segMinNs, partMinNs int64, segCount int, tracks
 		if lg == "" {
 			lg = "-"
 		}
-		ops = append(ops, fmt.Sprintf("track codec=%s rate=%d sr=%d name=%s lang=%s def=%s step=%d", t.codec, t.rate, t.sr, nm, lg, b01(t.def), t.step))
+		line := fmt.Sprintf("track codec=%s rate=%d sr=%d name=%s lang=%s def=%s step=%d", t.codec, t.rate, t.sr, nm, lg, b01(t.def), t.step)
+		if t.reorder {
+			line += " bf=1"
+		}
+		ops = append(ops, line)
 	}
 	ops = append(ops, "begin")
 	return append(ops, ws...)
@@ -183,5 +231,15 @@ func c9Corpus() [][]string {
 	led := []c9CorpusTrack{{codec: "aac", rate: 96000, sr: 96000, name: "main", lang: "en", step: 1024, aus: 3}}
 	out = append(out, c9BuildCase("fmp4", 42665000, 0, 6, led, 7, 520, 600, mid("mv", "s0")))
 	out = append(out, c9BuildCase("ll", 42665000, 4000000, 7, led, 7, 520, 600, mid("mv")))
+	// 7. video with frame reordering (DTS != PTS), one case per variant: H264 (+ AAC) in MPEG-TS, fMP4 and LL on the
+	// compressed axis, H265 (+ Opus) in fMP4 on its own (unscalable) 33 ms grid
+	rv := []c9CorpusTrack{{codec: "h264", rate: 90000, step: 180, reorder: true}, {codec: "aac", rate: 44100, sr: 44100, name: "main", lang: "en", step: 40}}
+	out = append(out, c9BuildCase("ts", 16000000, 0, 5, rv, 21.5, 0, 250, mid("mv", "s0")))
+	out = append(out, c9BuildCase("fmp4", 16000000, 0, 5, rv, 21.5, 0, 250, mid("mv", "s0")))
+	out = append(out, c9BuildCase("ll", 16000000, 4000000, 7, rv, 21.5, 0, 250, mid("mv")))
+	rv5 := []c9CorpusTrack{{codec: "h265", rate: 90000, step: 3000, reorder: true}, {codec: "opus", rate: 48000, name: "alt1", lang: "it", step: 480}}
+	out = append(out, c9BuildCase("fmp4", 200000000, 0, 5, rv5, 4, 0, 1500, func(skip, n int) ([]int, []string) {
+		return []int{skip + (n-skip)*5/10}, []string{"mv"}
+	}))
 	return out
 }
